@@ -40,7 +40,7 @@ CONSTANTS Attempts,     \* connection attempts
           DirOf,        \* attempt -> "in" | "out"
           QueueLen,     \* AcceptQueueLength
           WithStreams,  \* model one stream per admitted connection
-          CodeQuirks    \* the defective exits modelled as the code has them: subset of {"tracing","nilpeer","forcepnet","skip"}
+          CodeQuirks    \* defective variants: subset of {"tracing","nilpeer","forcepnet","skip"} (exits as the code once had them) and "lateforget" (doClose forgetting the stream map last)
 
 VARIABLES stage,   \* attempt -> stage
           held,    \* attempt -> set of resources
@@ -50,10 +50,11 @@ VARIABLES stage,   \* attempt -> stage
           sst,     \* attempt -> stage of its stream: none | arrived | scope | opened | registered | negotiated | reset | failed | closed
           sdir,    \* attempt -> direction of its stream
           sheld,   \* attempt -> resources of the stream
+          snap,    \* attempt -> doClose's snapshot of the registered streams contained the stream
           op
 
-vars == <<stage, held, dead, lst, swarm, sst, sdir, sheld, op>>
-View == <<stage, held, dead, lst, swarm, sst, sdir, sheld>>
+vars == <<stage, held, dead, lst, swarm, sst, sdir, sheld, snap, op>>
+View == <<stage, held, dead, lst, swarm, sst, sdir, sheld, snap>>
 
 Terminal == {"failed", "closed"}
 STerminal == {"failed", "closed"}
@@ -105,11 +106,12 @@ Init == /\ stage = [a \in Attempts |-> "idle"]
         /\ lst = "open" /\ swarm = "open"
         /\ sst = [a \in Attempts |-> "none"] /\ sdir = [a \in Attempts |-> "out"]
         /\ sheld = [a \in Attempts |-> {}]
+        /\ snap = [a \in Attempts |-> FALSE]
         /\ op = [name |-> "init"]
 
 Move(a, st, h) == /\ stage' = [stage EXCEPT ![a] = st]
                   /\ held' = [held EXCEPT ![a] = h]
-NoStream == UNCHANGED <<sst, sdir, sheld>>
+NoStream == UNCHANGED <<sst, sdir, sheld, snap>>
 
 (***************************************************************************)
 (* Progress of a connection attempt                                        *)
@@ -166,17 +168,32 @@ SessionDies(a) ==
   /\ op' = [name |-> "SessionDies", a |-> a, stage |-> stage[a]]
   /\ UNCHANGED <<stage, lst, swarm>> /\ NoStream
 
-\* transportConn.Close / Conn.Close: by the user, by the accept loop after the session died, by Swarm.Close
-ConnClose(a) ==
+\* Conn.Close (by the user, by the accept loop after the session died, by Swarm.Close) is not one step.
+\* doClose first takes, under the streams lock, a snapshot of the registered streams AND forgets the map
+\* (streams.m = nil: addStream refuses from now on); then it closes the transport connection and resets
+\* the streams of the snapshot.  Stream admission (addStream) interleaves with these steps.  With
+\* "lateforget" in CodeQuirks the map is forgotten only at the end: a stream admitted in between is in
+\* nobody's snapshot.
+Forgot(a) == stage[a] = "closed" \/ (stage[a] = "closing" /\ "lateforget" \notin CodeQuirks)
+Online(a) == stage[a] \in {"admitted", "closing"} /\ ~Forgot(a)
+
+CloseBegin(a) ==
   /\ stage[a] = "admitted"
+  /\ stage' = [stage EXCEPT ![a] = "closing"]
+  /\ snap' = [snap EXCEPT ![a] = sst[a] \in {"registered", "negotiated"}]
+  /\ op' = [name |-> "CloseBegin", a |-> a, dir |-> DirOf[a]]
+  /\ UNCHANGED <<held, dead, lst, swarm, sst, sdir, sheld>>
+
+CloseEnd(a) ==
+  /\ stage[a] = "closing"
   /\ Move(a, "closed", {})
-  \* doClose resets every registered stream
-  /\ IF sst[a] \in {"registered", "negotiated"}
+  \* the streams of the snapshot are reset
+  /\ IF snap[a] /\ sst[a] \in {"registered", "negotiated"}
        THEN /\ sst' = [sst EXCEPT ![a] = IF "hgor" \in sheld[a] THEN "reset" ELSE "closed"]
             /\ sheld' = [sheld EXCEPT ![a] = IF "hgor" \in @ THEN {"sscope", "hgor"} ELSE {}]
        ELSE UNCHANGED <<sst, sheld>>
-  /\ op' = [name |-> "ConnClose", a |-> a, dir |-> DirOf[a]]
-  /\ UNCHANGED <<dead, lst, swarm, sdir>>
+  /\ op' = [name |-> "CloseEnd", a |-> a, dir |-> DirOf[a]]
+  /\ UNCHANGED <<dead, lst, swarm, sdir, snap>>
 
 (***************************************************************************)
 (* Listener and swarm                                                      *)
@@ -211,17 +228,17 @@ SwarmCloseRet ==
 (* basic_host.go)                                                          *)
 (***************************************************************************)
 SMove(a, st, h) == /\ sst' = [sst EXCEPT ![a] = st] /\ sheld' = [sheld EXCEPT ![a] = h]
-ConnUnch == UNCHANGED <<stage, held, dead, lst, swarm>>
+ConnUnch == UNCHANGED <<stage, held, dead, lst, swarm, snap>>
 
 StreamStart(a, d) ==
-  /\ WithStreams /\ sst[a] = "none" /\ stage[a] = "admitted" /\ ~dead[a]
+  /\ WithStreams /\ sst[a] = "none" /\ Online(a) /\ ~dead[a]
   /\ sdir' = [sdir EXCEPT ![a] = d]
   /\ IF d = "out" THEN SMove(a, "scope", {"sscope"})     \* Conn.NewStream: rcmgr.OpenStream fine
                   ELSE SMove(a, "arrived", {"ms"})        \* AcceptStream returned a muxed stream
   /\ op' = [name |-> "StreamStart", a |-> a, dir |-> d]
   /\ ConnUnch
 StreamRefused(a, d) ==                                   \* Conn.NewStream: rcmgr.OpenStream refuses: nothing acquired
-  /\ WithStreams /\ sst[a] = "none" /\ stage[a] = "admitted" /\ d = "out"
+  /\ WithStreams /\ sst[a] = "none" /\ Online(a) /\ d = "out"
   /\ sdir' = [sdir EXCEPT ![a] = d] /\ SMove(a, "failed", {})
   /\ op' = [name |-> "SFail", a |-> a, dir |-> d, stage |-> "none", kind |-> "rcmgr"]
   /\ ConnUnch
@@ -231,7 +248,7 @@ StreamStep(a) ==
      \/ /\ st = "arrived" /\ SMove(a, "opened", h \cup {"sscope", "sref"})   \* OpenStream fine; refs.Add(1); go
      \/ /\ st = "scope" /\ ~dead[a] /\ stage[a] = "admitted"
         /\ SMove(a, "opened", h \cup {"ms"})                                  \* muxer OpenStream fine
-     \/ /\ st = "opened" /\ stage[a] = "admitted"                             \* addStream registers it
+     \/ /\ st = "opened" /\ Online(a)                                       \* addStream registers it
         /\ SMove(a, "registered", IF sdir[a] = "in" THEN h \cup {"hgor"} ELSE h \cup {"sref"})
      \/ /\ st = "registered" /\ SMove(a, "negotiated", h)                     \* protocol negotiated, SetProtocol fine
   /\ op' = [name |-> "StreamStep", a |-> a, from |-> sst[a]]
@@ -243,7 +260,7 @@ SFail(a, k) ==
   /\ LET st == sst[a]  h == sheld[a] IN
      \/ /\ st = "arrived" /\ k = "rcmgr" /\ SMove(a, "failed", {})          \* OpenStream refused: ts.ResetWithError
      \/ /\ st = "scope" /\ k \in {"io", "ctx"} /\ SMove(a, "failed", {})     \* muxer OpenStream error: scope.Done()
-     \/ /\ st = "opened" /\ k = "connclosed" /\ stage[a] # "admitted"        \* addStream: ts.Reset(); caller: scope.Done()
+     \/ /\ st = "opened" /\ k = "connclosed" /\ ~Online(a)                  \* addStream: ts.Reset(); caller: scope.Done()
         /\ SMove(a, "failed", {})
      \/ /\ st = "registered" /\ k \in {"io", "ctx", "na", "rcmgr"}           \* negotiation / SetProtocol fails: Reset
         /\ IF "hgor" \in h THEN SMove(a, "reset", {"sscope", "hgor"}) ELSE SMove(a, "failed", {})
@@ -266,7 +283,7 @@ HandlerReturns(a) ==
 Kinds == {k \in {x[3] : x \in ExitTable} : TRUE}
 SKinds == {"io", "ctx", "na", "rcmgr", "connclosed"}
 
-Progress(a) == \/ Start(a) \/ Step(a) \/ \E k \in Kinds : Fail(a, k) \/ ConnClose(a)
+Progress(a) == \/ Start(a) \/ Step(a) \/ \E k \in Kinds : Fail(a, k) \/ CloseBegin(a) \/ CloseEnd(a)
                \/ StreamStep(a) \/ \E k \in SKinds : SFail(a, k) \/ StreamClose(a) \/ HandlerReturns(a)
 
 Next == \/ \E a \in Attempts : Progress(a) \/ SessionDies(a)
@@ -293,9 +310,12 @@ Released == /\ \A a \in Attempts : stage[a] \in Terminal => held[a] = {}
 \* never knew (an outbound dial still in flight, a connection nobody handed over yet) may hold something
 SwarmClosed == swarm = "closed" =>
                  /\ lst = "closed"
-                 /\ \A a \in Attempts : /\ stage[a] # "admitted" /\ "ref" \notin held[a]
+                 /\ \A a \in Attempts : /\ stage[a] \notin {"admitted", "closing"} /\ "ref" \notin held[a]
                                         /\ "sref" \notin sheld[a] /\ (sdir[a] = "in" => "ms" \notin sheld[a])
                                         /\ (DirOf[a] = "in" => stage[a] \in Terminal \cup {"idle", "handed"})
+
+\* once a connection's Close has completed none of its streams is still registered on it
+NoOrphan == \A a \in Attempts : stage[a] = "closed" => sst[a] \notin {"registered", "negotiated"}
 
 \* ... and they too end up holding nothing
 Drained == <>[](\A a \in Attempts : held[a] = {} /\ sheld[a] = {})
@@ -304,4 +324,5 @@ Drained == <>[](\A a \in Attempts : held[a] = {} /\ sheld[a] = {})
 ReachQueuedDead == ~(\E a \in Attempts : stage[a] = "queued" /\ dead[a])
 ReachCloseRace == ~(swarm = "closing" /\ \E a \in Attempts : stage[a] \in {"secneg", "handshake", "muxneg", "queued"})
 ReachStreamReset == ~(\E a \in Attempts : sst[a] = "reset" /\ stage[a] = "closed")
+ReachAdmitDuringClose == ~(\E a \in Attempts : stage[a] = "closing" /\ sst[a] = "opened")
 =============================================================================
